@@ -224,3 +224,206 @@ def expand_locals(fn, x, depth=2, _cache=None):
     if len(x) == 2 and x[0] == "var" and len(_cache.get(x[1], ())) == 1:
         return expand_locals(fn, _cache[x[1]][0], depth - 1, _cache)
     return [expand_locals(fn, y, depth, _cache) if isinstance(y, list) else y for y in x]
+
+
+def _truth_implies(c, pos, neg, truth):
+    """does condition c evaluating to `truth` imply the fact?  pos(x): x states the fact; neg(x): x states its negation"""
+    if not isinstance(c, list) or not c:
+        return False
+    if (pos(c) if truth else neg(c)):
+        return True
+    if c[0] == "un" and c[1] == "!" and len(c) == 3:
+        return _truth_implies(c[2], pos, neg, not truth)
+    if c[0] == "op" and len(c) == 4 and c[1] in ("&&", "||"):
+        a, b = _truth_implies(c[2], pos, neg, truth), _truth_implies(c[3], pos, neg, truth)
+        # (a && b) true implies what either side's truth implies; (a || b) true only what both imply; dually for false
+        either = (c[1] == "&&") == truth
+        return (a or b) if either else (a and b)
+    return False
+
+
+def known_edges(fn, pos, neg):
+    """CFG edges on which a fact F is known: TRUE edges of branch conditions whose truth implies F and FALSE edges of conditions whose
+    falsity implies F (pos(c): c states F; neg(c): c states not-F; !, && and || are taken apart) -- `if (x == 0) A`,
+    `if (x != 0) B else A` and `if (!(x == 0)) B; else A` all guard A by x == 0."""
+    res = set()
+    for b, blk in fn.blocks.items():
+        t = blk.get("term")
+        if not t or t.get("cond") is None or t["k"] not in ("if", "cond", "while", "for", "do", "||", "&&"):
+            continue
+        succ = blk["succ"]
+        c = t["cond"]
+        if succ and succ[0] >= 0 and _truth_implies(c, pos, neg, True):
+            res.add((b, succ[0]))
+        if len(succ) > 1 and succ[1] >= 0 and _truth_implies(c, pos, neg, False):
+            res.add((b, succ[1]))
+    return res
+
+
+def fact_edges(fn, pos, neg=None, case=None):
+    """CFG edges on which a fact is known, whatever the syntactic form of the test:
+       * TRUE edge of a branch whose condition implies the fact            (pos(c))
+       * FALSE edge of a branch whose condition's negation states the fact  (neg(c)), incl. the parts of an `a || b`
+       * the edge from a `switch (v)` to its `case L:` block                (case(switch_cond, label_sx))
+    Together with only_via() this reads `if (v == E) A`, `if (v != E) B else A`, `if (v != E) return; A` and
+    `switch (v) { case E: A }` as the same guard of A."""
+    res = known_edges(fn, pos, neg or (lambda c: False))
+    if case is not None:
+        for b, blk in fn.blocks.items():
+            t = blk.get("term")
+            if not t or t["k"] != "switch":
+                continue
+            for s in blk["succ"]:
+                if s < 0:
+                    continue
+                lab = fn.blocks[s].get("case")
+                if isinstance(lab, list) and case(t.get("cond"), lab):
+                    res.add((b, s))
+    return res
+
+
+def guarded_by(fn, block, edges):
+    """block can only be reached through one of `edges` (the guard holds whenever it executes)"""
+    return only_via(fn, block, edges)
+
+
+# ---------------------------------------------------------------------------------------------------------------------
+# Value sets of one finite-valued expression (an enum variable / member, or a boolean predicate) along the CFG.
+# Reads every syntactic form of a test the same way: if / else-if chains, switch, early return or continue, negation,
+# swapped branches, && and || -- so that "this statement executes only when v == E" is a semantic fact, not a code shape.
+
+def _const_of(x):
+    """constant a subject is compared with: enumerator short name, 'true' / 'false', or an integer literal; None if not constant"""
+    if not isinstance(x, list) or not x:
+        return None
+    if x[0] in ("enum", "gvar") and isinstance(x[1], str):
+        return x[1].split("::")[-1]
+    if x[0] == "lit":
+        return str(x[1])
+    if x[0] in ("cast", "conv") and len(x) > 2:
+        return _const_of(x[2] if x[0] == "cast" else x[1])
+    if x[0] == "ctor" and len(x) > 2 and len(x[2]) == 1:
+        return _const_of(x[2][0])
+    return None
+
+
+def refine(c, S, truth, subject, universe):
+    """subset of S consistent with condition c evaluating to `truth`"""
+    if not isinstance(c, list) or not c:
+        return S
+    if c[0] == "un" and c[1] == "!":
+        return refine(c[2], S, not truth, subject, universe)
+    if c[0] in ("op", "opc") and len(c) == 4 and c[1] in ("==", "!="):
+        a, b = c[2], c[3]
+        if subject(b) and not subject(a):
+            a, b = b, a
+        k = _const_of(b)
+        if subject(a) and k is not None:
+            if k == "1" and "true" in universe:
+                k = "true"
+            if k == "0" and "false" in universe:
+                k = "false"
+            eq = (c[1] == "==") == truth
+            return (S & {k}) if eq else (S - {k})
+        return S
+    if c[0] == "op" and c[1] == "&&" and len(c) == 4:
+        if truth:
+            return refine(c[3], refine(c[2], S, True, subject, universe), True, subject, universe)
+        return refine(c[2], S, False, subject, universe) | refine(c[3], refine(c[2], S, True, subject, universe), False, subject, universe)
+    if c[0] == "op" and c[1] == "||" and len(c) == 4:
+        if truth:
+            return refine(c[2], S, True, subject, universe) | refine(c[3], refine(c[2], S, False, subject, universe), True, subject, universe)
+        return refine(c[3], refine(c[2], S, False, subject, universe), False, subject, universe)
+    if subject(c) and "true" in universe:
+        return (S & {"true"}) if truth else (S - {"true"})
+    return S
+
+
+def value_sets(fn, subject, universe, kill=None):
+    """block id -> set of values of `subject` possible on entry to the block (forward may-analysis over the CFG; infeasible edges are
+    skipped).  `kill(event)` tells that an event may change the subject (the set is reset to the universe after it)."""
+    universe = set(universe)
+    infeas = fn.infeasible_edges()
+    IN = {b: set() for b in fn.blocks}
+    IN[fn.entry] = set(universe)
+    work = [fn.entry]
+    while work:
+        b = work.pop()
+        S = set(IN[b])
+        blk = fn.blocks[b]
+        if kill is not None and any(kill(e) for e in blk["ev"]):
+            S = set(universe)
+        t = blk.get("term")
+        succ = blk["succ"]
+        outs = []
+        if t and t["k"] == "switch" and subject(t.get("cond")):
+            labelled = set()
+            for s in succ:
+                if s < 0:
+                    continue
+                lab = fn.blocks[s].get("case")
+                k = _const_of(lab) if isinstance(lab, list) else None
+                if k is not None:
+                    labelled.add(k)
+            for s in succ:
+                if s < 0:
+                    continue
+                lab = fn.blocks[s].get("case")
+                k = _const_of(lab) if isinstance(lab, list) else None
+                outs.append((s, (S & {k}) if k is not None else (S - labelled)))
+        elif t and t.get("cond") is not None and t["k"] in ("if", "cond", "while", "for", "do", "||", "&&") and len(succ) >= 2:
+            outs.append((succ[0], refine(t["cond"], S, True, subject, universe)))
+            outs.append((succ[1], refine(t["cond"], S, False, subject, universe)))
+            for s in succ[2:]:
+                outs.append((s, S))
+        else:
+            outs = [(s, S) for s in succ]
+        for s, Sout in outs:
+            if s is None or s < 0 or (b, s) in infeas:
+                continue
+            if not Sout <= IN[s]:
+                IN[s] |= Sout
+                work.append(s)
+    return IN
+
+
+def subst(x, env):
+    """s-expression x with every ["var", name] whose name is in env replaced by env[name]"""
+    if not isinstance(x, list):
+        return x
+    if len(x) == 2 and x[0] == "var" and x[1] in env:
+        return env[x[1]]
+    return [subst(y, env) for y in x]
+
+
+def effective_calls(P, fn, target, depth=2):
+    """call sites of `target` in fn, seen through same-class non-virtual helpers: a call `helper(a, b)` whose body makes exactly one
+    call of target counts as a site of target with the helper's parameters replaced by the site's arguments (extract-method refactorings
+    leave the rule instances where they were).  Yields (block, index, site_event, effective_event); for a direct call both are the same."""
+    out = []
+    for b, i, e in fn.calls():
+        n = e.get("fn", "")
+        if n == target:
+            out.append((b, i, e, e))
+            continue
+        if depth <= 0 or not e.get("fid") or e.get("virt"):
+            continue
+        gs = [g for g in P.by_id.get(e["fid"], []) if g.blocks]
+        g = gs[0] if gs else None
+        if g is None or g is fn or g.cls != fn.cls:
+            continue
+        inner = effective_calls(P, g, target, depth - 1)
+        if len(inner) != 1:
+            continue
+        params = [p[0] for p in g.d.get("params", [])]
+        args = call_args(e)
+        if len(args) != len(params):
+            continue
+        env = dict(zip(params, args))
+        ee = dict(inner[0][3])
+        for k in ("x", "obj"):
+            if k in ee:
+                ee[k] = subst(ee[k], env)
+        ee["line"] = e["line"]
+        out.append((b, i, e, ee))
+    return out
